@@ -17,6 +17,7 @@ use crate::core::*;
 fn main() {
     mcmc_sim::sim::install_quiet_panic_hook();
     let args: Vec<String> = std::env::args().collect();
+    craft::self_check();
     let props = props::all();
     if args.len() >= 3 && args[1] == "--replay" {
         std::process::exit(replay_main(&props, &args[2]));
